@@ -1884,6 +1884,11 @@ class Client:
         if subfunction in [services.ReadDTCInformation.Subfunction.reportDTCSnapshotRecordByRecordNumber, services.ReadDTCInformation.Subfunction.reportDTCSnapshotRecordByDTCNumber, services.ReadDTCInformation.Subfunction.reportUserDefMemoryDTCSnapshotRecordByDTCNumber]:
             assert snapshot_record_number is not None
             if snapshot_record_number != 0xFF:
+                if subfunction == services.ReadDTCInformation.Subfunction.reportDTCSnapshotRecordByRecordNumber:
+                    # The record number comes right after the subfunction, even when no DTC follows it.
+                    if response.data[1] != snapshot_record_number:
+                        raise UnexpectedResponseException(response, 'Server returned snapshot record number 0x%02x while client requested for 0x%02x' % (
+                            response.data[1], snapshot_record_number))
                 for dtc_obj in response.service_data.dtcs:
                     for snapshot in dtc_obj.snapshots:
                         gotten_record_number = snapshot if isinstance(snapshot, int) else snapshot.record_number
@@ -1909,6 +1914,10 @@ class Client:
 
         if subfunction == services.ReadDTCInformation.Subfunction.reportDTCExtDataRecordByRecordNumber:
             if extended_data_record_number is not None:
+                # The record number comes right after the subfunction, even when no DTC follows it.
+                if response.data[1] != extended_data_record_number:
+                    raise UnexpectedResponseException(response, 'Extended data record number given by the server (0x%02x) does not match the record number requested by the client (0x%02x)' % (
+                        response.data[1], extended_data_record_number))
                 for dtc_obj in response.service_data.dtcs:
                     for extended_data in dtc_obj.extended_data:
                         if extended_data.record_number != extended_data_record_number:
